@@ -542,6 +542,24 @@ impl<'a, 't, 'g> VGen<'a, 't, 'g> {
         let n = 1 + self.t.count(0, 3);
         let base = self.cur_class.clone();
         self.cur_class = format!("{}.var", base);
+        // insertion site: an extra variable of a type that is declared nowhere, with an enumerated
+        // initial value (`m : T := V` - the form only the enumeration rule sees).  It needs no
+        // enumeration anywhere in the unit
+        if self.site(FaultKind::UnknownType) {
+            let tm = self.marker("notype");
+            let vm = self.marker("novalue");
+            self.set_marker(&tm);
+            if let Some(p) = &mut self.planted {
+                p.site_class = format!("{}.inserted-enum-typed-variable", p.site_class);
+            }
+            let vname = self.marker("extra");
+            out.push(vd(
+                &vname,
+                vt.clone(),
+                q.clone(),
+                InitialValueAssignmentKind::EnumeratedType(EnumeratedInitialValueAssignment { type_name: Type::from(tm.as_str()), initial_value: Some(EnumeratedValue::new(&vm)) }),
+            ));
+        }
         for _ in 0..n {
             let name = self.fresh_local();
             let choice = match self.t.below(14) {
@@ -914,6 +932,17 @@ impl<'a, 't, 'g> VGen<'a, 't, 'g> {
         let n = min + self.t.count(0, if depth == 0 { self.p.max_stmts } else { 2 });
         let base = self.cur_class.clone();
         let mut v = vec![];
+        // insertion site: an invocation of something that is no function block instance.  It needs no
+        // function block anywhere in the unit (a rule that only runs "when there are function blocks"
+        // would miss it)
+        if self.site(FaultKind::CallNotInstance) {
+            let m = self.marker("nothing");
+            self.set_marker(&m);
+            if let Some(p) = &mut self.planted {
+                p.site_class = format!("{}.inserted-call", p.site_class);
+            }
+            v.push(StmtKind::FbCall(FbCall { var_name: id(&m), params: vec![], position: SourceSpan::default() }));
+        }
         for _ in 0..n {
             let k = if depth >= 2 { self.t.below(4) } else { self.t.below(10) };
             let k = if k == 9 { 2 } else { k };
